@@ -54,6 +54,8 @@ def run(tier):
         kn["inst_copy"] = (i % 3 == 1)
         kn["tbl_nozero"] = (i % 2 == 1)
         kn["fx_overwrite"] = (i % 3 != 1)
+        if kn["rational"]:
+            kn["perm"] = max(kn["perm"], 2)     # copy operations need two advice columns with equality enabled
         scen.append({"shape": kn, "nproofs": 1, "hash": "blake2b", "seed": rng.randrange(1 << 30),
                      "max_faults": maxf})
     # circuits whose single region fills every usable row and enables a gate on the LAST usable row
